@@ -952,12 +952,38 @@ class AServerEnterUnit(ServerEnterUnit):
                 ('pending notifications of an earlier entry kept', '        self._pipeline_notfull_notifications = {}\n', '', ''))
 
 
+class StopProtocolLemma(LemmaUnit):
+    """"Stops completely", last step: once the reader of an output queue (the gather thread; a next stage's worker) has STOPPED at the first end marker, no writer of that
+    queue may be left with something to write that can block.  From the component contracts: the reader stops at the first marker (gather / worker loops); every worker
+    writes its own marker after its own results (worker loops; a batching worker's collector thread does not write the marker to the output queue -- unit
+    _build_input_batches, repaired by 716f1f6); a put on a thread queue never blocks, a put on a pipe-backed process queue blocks while more than the pipe's
+    buffer is unread.  With ONE writer nothing is left after the marker.  With several writer processes, results of the slower ones may follow the first marker; when they
+    exceed the pipe's buffer the writer blocks forever and stop() joins it forever.  The second lemma FAILS: recorded in KNOWN_FINDINGS.txt (reproduced by
+    replay/scenarios/c11_exit_pending_large_results.py several-workers); results only follow the marker for requests nobody waits for any more (abandoned stream, timed out)."""
+    prop = 'C11'
+    qual = 'lemma(C11 stop protocol)'
+
+    def lemmas(self):
+        writers, left, cap = z3.Ints('writers bytes_written_after_the_first_end_marker pipe_buffer')
+        pipe = z3.Bool('queue_is_pipe_backed')
+        base = [writers >= 1, left >= 0, cap > 0,
+                # each writer: own results, then own marker -- so a sole writer has nothing left once its marker is out
+                z3.Implies(writers == 1, left == 0)]
+        blocked = z3.And(pipe, left > cap)
+        yield ('a single writer (one worker, batching or not), or any thread-queue stage: nothing can block after the reader stopped at the end marker',
+               base + [z3.Or(writers == 1, z3.Not(pipe))], z3.Not(blocked))
+        yield ('several worker processes writing to a pipe-backed queue: no writer is left blocked after the reader stopped at the first end marker',
+               base + [pipe, writers >= 2], z3.Not(blocked))
+
+
 from contracts.ctors import SERVLET_CTORS      # noqa: E402
 UNITS = list(SERVLET_CTORS) + [EnterServer, EnterServerThreadQ, SimpleStart, ThreadStart, SimpleStop, ThreadStop, CompoundStart, EnsembleStart, SwitchStart, CompoundStop, SwitchStop, SequentialStop,
-         ServerExit, ServerExitThreadQ, AServerExit, OnboardUnit, WorkerRun, ServerEnterUnit, AServerEnterUnit]
+         ServerExit, ServerExitThreadQ, AServerExit, OnboardUnit, WorkerRun, ServerEnterUnit, AServerEnterUnit, StopProtocolLemma]
 # stopping completely: the end marker travels input queue -> every worker loop (ends on it and passes it on; Worker.start re-broadcasts it for its siblings) -> output queue -> gather thread (ends on it)
 from contracts.worker import UNITS_SINGLE, UNITS_BATCH      # noqa: E402
 from contracts.servlet import UNITS_FORWARD, UNITS_DEQUEUE      # noqa: E402
 from contracts.server import GatherUnit, AGatherUnit      # noqa: E402
 UNITS += [u for u in list(UNITS_SINGLE) + list(UNITS_BATCH) + list(UNITS_FORWARD) + list(UNITS_DEQUEUE) + [GatherUnit, AGatherUnit] if u not in UNITS]
-SCENARIOS = [('', 'replay/scenarios/c11_init_failure_cleanup.py'), ('', 'replay/scenarios/c11_abandoned_stream_exit.py')]
+SCENARIOS = [('', 'replay/scenarios/c11_init_failure_cleanup.py'), ('', 'replay/scenarios/c11_abandoned_stream_exit.py'), ('', 'replay/scenarios/c11_exit_pending_large_results.py', ('controls',)), ('', 'replay/scenarios/c11_exit_pending_large_results.py', ('batch-worker',))]
+# reproduction of the known finding (expected to FAIL while the finding stands; run in the thorough tier and reported in the evidence, never a violation)
+FINDING_SCENARIOS = [('no writer is left blocked', 'replay/scenarios/c11_exit_pending_large_results.py', ('several-workers',), 120)]
